@@ -34,6 +34,7 @@ type SimDB struct {
 
 	// crash plan: after the CrashAtCommit-th successful commit the instance dies.
 	CrashAtCommit int
+	Closed        bool
 	// OnCommit is called after every successful commit (invariant monitors).
 	OnCommit func(n int)
 }
@@ -68,7 +69,13 @@ func (d *SimDB) Heal() {
 	d.mu.Unlock()
 }
 
-func (d *SimDB) Close() error { return d.inner.Close() }
+func (d *SimDB) Close() error {
+	err := d.inner.Close()
+	d.mu.Lock()
+	d.Closed = true
+	d.mu.Unlock()
+	return err
+}
 
 func (d *SimDB) BeginTx() (mwdb.DBTransaction, error) {
 	g := d.S.Current()
